@@ -94,6 +94,25 @@ func c19Doc(fam string, n int) string {
 			}
 			sb.WriteString(" }\n")
 		}
+	case "exclchain":
+		// two parallel chains A0..An, B0..Bn; each link selects `child` once under ... on T0 and once under
+		// ... on T1, so the pair (A(i+1), B(i+1)) is compared from mutually exclusive and from non-exclusive parents
+		sb.WriteString("{ node { ...A0 ...B0 } }\n")
+		for _, p := range []string{"A", "B"} {
+			for i := 0; i < n; i++ {
+				fmt.Fprintf(&sb, "fragment %s%d on Node { ... on T0 { child { ...%s%d } } ... on T1 { child { ...%s%d } } }\n", p, i, p, i+1, p, i+1)
+			}
+			fmt.Fprintf(&sb, "fragment %s%d on Node { x }\n", p, n)
+		}
+	case "diamond":
+		// F0 -> (G0, H0) -> F1 -> (G1, H1) -> ... : every fragment is reachable along 2^i paths
+		sb.WriteString("{ ...F0 }\n")
+		for i := 0; i < n; i++ {
+			fmt.Fprintf(&sb, "fragment F%d on Query { a ...G%d ...H%d }\n", i, i, i)
+			fmt.Fprintf(&sb, "fragment G%d on Query { b ...F%d }\n", i, i+1)
+			fmt.Fprintf(&sb, "fragment H%d on Query { c ...F%d }\n", i, i+1)
+		}
+		fmt.Fprintf(&sb, "fragment F%d on Query { a }\n", n)
 	case "wide":
 		sb.WriteString("{")
 		for i := 0; i < n; i++ {
@@ -179,8 +198,8 @@ func init() {
 				}
 			}
 		}
-		schema, _ := c19AbstractSchema(1)
-		for _, fam := range []string{"chain", "fan", "mesh", "wide"} {
+		schema, _ := c19AbstractSchema(2)
+		for _, fam := range []string{"chain", "fan", "mesh", "wide", "exclchain", "diamond"} {
 			for n := 1; n <= maxN; n++ {
 				doc, err := parseDoc(c19Doc(fam, n))
 				if err != nil {
@@ -196,15 +215,26 @@ func init() {
 				}
 				emit(fam+"_validate", n, 1, work)
 				stop := work > giveUp
-				if fam == "chain" {
+				if fam == "chain" || fam == "diamond" {
 					graphql.VerifResetCounters()
 					if _, perr := graphql.PlanQuery(&schema, doc, ""); perr != nil {
 						fmt.Fprintln(os.Stderr, "infra: PlanQuery:", perr)
 						return 2
 					}
 					pw := sumCounters(0, 1)
-					emit("chain_plan", n, 1, pw)
+					emit(fam+"_plan", n, 1, pw)
 					stop = stop || pw > giveUp
+					// the normalising plan cache fingerprints the document before anything else
+					graphql.VerifResetCounters()
+					cache := graphql.NewPlanCache(graphql.PlanCacheOptions{Normalize: true})
+					pr := cache.Get(&schema, c19Doc(fam, n), "")
+					if len(pr.Errors) > 0 {
+						fmt.Fprintln(os.Stderr, "infra: PlanCache.Get:", pr.Errors[0].Message)
+						return 2
+					}
+					fw := sumCounters(7)
+					emit(fam+"_fingerprint", n, 1, fw)
+					stop = stop || fw > giveUp
 				}
 				if stop {
 					break
